@@ -75,7 +75,8 @@ func gpgSignatureAttributes(s *packet.Signature, keyCreationTime time.Time) []At
 		{"Usage", keyFlagsToString(s)},
 		{"Created", s.CreationTime.UTC().Format("2006-01-02")},
 	}
-	if l := s.KeyLifetimeSecs; l != nil {
+	// RFC 4880, section 5.2.3.6: a key expiration time of zero means the key never expires
+	if l := s.KeyLifetimeSecs; l != nil && *l != 0 {
 		exp := time.Duration(*l) * time.Second
 		attrs = append(attrs, Attribute{"Expires", keyCreationTime.Add(exp).UTC().Format("2006-01-02")})
 	} else {
